@@ -284,15 +284,17 @@ Proof.
     + destruct (dec_of_text r) as [d|]; [|discriminate].
       destruct (dec_integral d) as [z|]; [|discriminate].
       apply int_range_ok in H as [-> Hr]; eauto.
-    + destruct (parse_int_text s) as [z|].
+    + destruct (clean_num_text s) as [s1|]; [|discriminate].
+      destruct (parse_int_text s1) as [z|].
       * apply int_range_ok in H as [-> Hr]; eauto.
-      * destruct (dec_of_text s) as [d|]; [|discriminate].
+      * destruct (dec_of_text s1) as [d|]; [|discriminate].
         destruct (dec_integral d) as [z|]; [|discriminate].
         apply int_range_ok in H as [-> Hr]; eauto.
   - destruct j; try discriminate.
     + destruct (float_int_ok z); inversion H; eauto.
     + destruct (dec_of_text r); inversion H; eauto.
-    + destruct (dec_of_text s); inversion H; eauto.
+    + destruct (clean_num_text s) as [s1|]; [|discriminate].
+      destruct (dec_of_text s1); inversion H; eauto.
   - destruct j; try discriminate; inversion H; eauto.
   - destruct j; try discriminate; inversion H; eauto.
   - destruct j; try discriminate; inversion H; eauto.
@@ -1871,4 +1873,87 @@ Proof.
   destruct (coerce_variable_values s vds raw) as [vs| | |] eqn:Ev; try discriminate.
   eapply directive_args_sound; eauto.
   intros d Hd. eapply usage_gives_fit; eauto.
+Qed.
+
+(* ------------------------------------------------------------------ *)
+(* the two open findings are the ONLY places where wrong values pass    *)
+Lemma wrong_full_split s t j : wrong_full s t j -> wrong s t j \/ lenient_inside s t j.
+Proof.
+  induction 1.
+  - left. constructor; assumption.
+  - destruct (lenient_scalar_case k j) eqn:E.
+    + right. eapply LI_here; eauto.
+    + left. eapply W_kind; eauto.
+  - left. eapply W_range; eauto.
+  - left. eapply W_enum_name; eauto.
+  - left. eapply W_enum_kind; eauto.
+  - left. eapply W_obj_kind; eauto.
+  - left. eapply W_unknown_field; eauto.
+  - left. eapply W_missing; eauto.
+  - destruct IHwrong_full as [IH|IH]; [left; eapply W_field; eauto|right; eapply LI_field; eauto].
+  - destruct IHwrong_full as [IH|IH]; [left; eapply W_item; eauto|right; eapply LI_item; eauto].
+  - destruct IHwrong_full as [IH|IH]; [left; eapply W_single; eauto|right; eapply LI_single; eauto].
+Qed.
+
+Theorem wrong_accepted_only_if_lenient s t j v :
+  wrong_full s t j -> coerce_value s j t = Ok v -> lenient_inside s t j.
+Proof.
+  intros Hw Hv. destruct (wrong_full_split s t j Hw) as [H|H]; [|exact H].
+  exfalso. eapply wrong_rejected; eauto.
+Qed.
+
+Lemma wrong_is_wrong_full s t j : wrong s t j -> wrong_full s t j.
+Proof.
+  induction 1; [constructor; assumption|eapply WF_kind; eauto|eapply WF_range; eauto
+                |eapply WF_enum_name; eauto|eapply WF_enum_kind; eauto|eapply WF_obj_kind; eauto
+                |eapply WF_unknown_field; eauto|eapply WF_missing; eauto|eapply WF_field; eauto
+                |eapply WF_item; eauto|eapply WF_single; eauto].
+Qed.
+
+(* at a scalar position: a foreign kind is accepted exactly in the lenient
+   cases that [lenient_accepts] lists *)
+Theorem foreign_accepted_iff k j :
+  scalar_kind_foreign k j -> ((exists v, parse_scalar k j = Ok v) <-> lenient_accepts k j = true).
+Proof.
+  intros Hf. destruct k, j; simpl in Hf; try contradiction; simpl;
+    try (split; [intros (v & H); discriminate H|discriminate]);
+    try (split; [reflexivity|eauto]).
+  - (* Int <- string *)
+    destruct (clean_num_text s) as [y|]; [|split; [intros (v & H); discriminate H|discriminate]].
+    destruct (parse_int_text y) as [z|].
+    + unfold int_range. destruct (in_int32 z); split; eauto; try discriminate.
+      intros (v & H); discriminate H.
+    + destruct (dec_of_text y) as [d|]; [|split; [intros (v & H); discriminate H|discriminate]].
+      destruct (dec_integral d) as [z|]; [|split; [intros (v & H); discriminate H|discriminate]].
+      unfold int_range. destruct (in_int32 z); split; eauto; try discriminate.
+      intros (v & H); discriminate H.
+  - (* Float <- string *)
+    destruct (clean_num_text s) as [y|]; [|split; [intros (v & H); discriminate H|discriminate]].
+    destruct (dec_of_text y); split; eauto; try discriminate. intros (v & H); discriminate H.
+Qed.
+
+(* ------------------------------------------------------------------ *)
+(* the same request with the value inline or through a variable of the  *)
+(* same type: the resolver gets the same kwargs                          *)
+Theorem request_routes_agree s d j l nm lc x lx tyast lv lcv lc' td :
+  schema_wf s ->
+  spelled s (f_ty d) j l -> n_val nm = f_name d ->
+  ity_of_ty tyast = f_ty d ->
+  alookup (ity_name (f_ty d)) s = Some td -> is_input_def td = true ->
+  exists v,
+    exec_kwargs s [d] [] [Arg nm l lc] [] = Ok [(f_py d, v)]
+    /\ exec_kwargs s [d] [VarDef x lx tyast None [] lv] [Arg nm (VVar x lcv) lc'] [(n_val x, j)]
+       = Ok [(f_py d, v)].
+Proof.
+  intros Hwf Hsp Hnm Hty Htd Hin.
+  assert (Hity : input_ty s (f_ty d)).
+  { unfold input_ty. rewrite Htd. intros E; inversion E; subst; discriminate. }
+  destruct (proj1 (spelled_agree s) _ _ _ Hsp []) as (v & Hcv & _).
+  destruct (arg_routes_agree s d j l v nm lc x lcv lc' [] Hwf Hity Hsp Hcv Hnm) as (H1 & H2).
+  exists v. split.
+  - unfold exec_kwargs, coerce_variable_values. simpl. unfold mkdict at 1. simpl.
+    unfold coerce_argument_values. simpl. rewrite H1. reflexivity.
+  - unfold exec_kwargs, coerce_variable_values. simpl. unfold var_binding. simpl.
+    rewrite Hty, Htd, Hin. simpl. rewrite str_eqb_refl, Hcv. simpl. unfold mkdict at 1. simpl.
+    unfold coerce_argument_values. simpl. rewrite H2. reflexivity.
 Qed.
